@@ -922,6 +922,24 @@ def r_alias_cycle(m, rnd):
             getd(m2, path).type = ref(d.ns, d.name)
         yield 'length1', apply2
 
+        # an alias holding itself as a list item / map value has no finite definition
+        for wrap in ('list', 'map', 'list_nullable', 'map_of_list'):
+            def apply3(m2, path=path, d=d, wrap=wrap):
+                me = ref(d.ns, d.name)
+                if wrap == 'list':
+                    t = T('list', args={'item': me, 'min_items': None, 'max_items': None})
+                elif wrap == 'list_nullable':
+                    t = T('list', args={'item': me, 'min_items': None, 'max_items': None}, nullable=True)
+                elif wrap == 'map':
+                    t = T('map', args={'key': prim('String'), 'value': me})
+                else:
+                    t = T('map', args={'key': prim('String'), 'value':
+                                       T('list', args={'item': me, 'min_items': None, 'max_items': None})})
+                a = getd(m2, path)
+                a.type = t
+                a.anns = []
+            yield 'through_' + wrap, apply3
+
 
 @rule('route_used_as_type')
 def r_route_as_type(m, rnd):
